@@ -25,15 +25,16 @@ CHECKS = {
         "level": "exploration",
         "families": [("packaged_loop", 40, 1)],
         "rule": "one run = launch.launch_sim (real Simulator + AttitudeEstimator('mrp') + Logger + Core) for 30-40 simulated seconds, noise off, "
-                "with seeded true initial attitude (whole unit ball) and gyro bias (+-0.1 rad/s), initialise on/off, field inclination / "
-                "declination / strength, sim / imu / mag / logger rates, correction rate limits and tie-break policy; invariants on every "
+                "with seeded true initial attitude (whole unit ball) and gyro bias (+-0.1 rad/s), initialise on/off, field inclination (+-0.9) / "
+                "declination (+-0.5) / strength, configured gravity, sim / imu / mag / logger rates (sensor periods below the simulation step "
+                "included), correction rate limits and tie-break policy; invariants on every "
                 "imu / mag / estimate message, convergence oracle on the returned log; distinct = distinct (interleaving signature, policy, "
                 "initialise flag); every run is non-trivial (time-varying rates up to 10 rad/s, >= 6000 estimator steps)",
         "real": ["launch.launch_sim", "estimate.attitude.simulator.Simulator", "estimate.attitude.estimator.AttitudeEstimator", "uros.Core (as SimCore) / Logger",
                  "algorithms.eqs()['sim'] and ['mrp']"],
         "stub": ["none (spy subscribers only observe)"],
         "assumptions": ["'a few hundredths of a radian' is read as <= 0.05 rad for all t >= 20 s; bias 'approaches' = every component within 0.02 rad/s at the end",
-                        "supported geometry: |inclination| <= 1.2 rad, |declination| <= 0.5 rad, g = 9.8 (the initialiser's gate is hard-wired to 9.8 +- 1)",
+                        "supported domain (calibrated, DESIGN 3/C12): |inclination| <= 0.9 rad, |declination| <= 0.5 rad, g in [9.3, 10.3], IMU >= 200 Hz, accelerometer corrected at least as often as the magnetometer",
                         "sensor noise off, no message faults: the property states the packaged loop without noise"],
         "faults_na": NO_TARGET + ["msg_drop/dup/reorder, sensor glitches: outside what C12 states (verdict scope rule, DESIGN 2.4)"],
         "run_timeout": 900,
@@ -80,8 +81,8 @@ CHECKS = {
         "level": "exploration",
         "families": [("hover_convergence", 40, 1)],
         "rule": "one run = the unmodified scripts/rdd2_sim.py node (plant, cascade, gains, allocation as wired in the script) at its nominal 100 Hz "
-                "on the simulated clock for 25 s (position cascade) or 30 s (SE_2(3) log-linear cascade) from a seeded initial condition: position "
-                "within 3 m of the commanded hover point, tilt <= 60 deg about a random axis with random yaw and either quaternion sign, body "
+                "on the simulated clock for 30 s (either cascade) from a seeded initial condition: position "
+                "within 3 m of the commanded hover point, commanded heading anywhere in (-pi, pi], tilt <= 60 deg about a random axis, initial heading within 150 deg of the commanded one, either quaternion sign, body "
                 "velocity and rates in +-1.5, rotors at hover speed or at rest; invariants every tick (finite state, motor commands in "
                 "[0, sqrt(F_max/CT)]), bounded-liveness oracle on the late part of the trajectory; distinct = distinct initial-condition cell "
                 "(mode, distance, tilt bucket, speed, rate, rotors, quaternion sign, leash / ground contact / saturation reached); every run is "
